@@ -510,6 +510,20 @@ func (e *Encoder) loopWaits(li *loopInfo) bool {
 	return false
 }
 
+// sameAddr: two SSA values denote the same address on every path - the same value, or field addresses of the
+// same field of the same address (go/ssa emits a fresh FieldAddr instruction for every `x.f` in the source).
+func sameAddr(a, b ssa.Value) bool {
+	if a == b {
+		return true
+	}
+	fa, ok1 := a.(*ssa.FieldAddr)
+	fb, ok2 := b.(*ssa.FieldAddr)
+	if ok1 && ok2 {
+		return fa.Field == fb.Field && types.Identical(fa.X.Type(), fb.X.Type()) && sameAddr(fa.X, fb.X)
+	}
+	return false
+}
+
 // ---------- package-wide lockset audit ----------
 
 func (p *Program) runMonitorAudits(prop string) (obls []*Obligation, errs []string) {
@@ -635,12 +649,12 @@ func (p *Program) runMonitorAudits(prop string) (obls []*Obligation, errs []stri
 			k := 0
 			held := func(recv ssa.Value, at ssa.Instruction) bool {
 				for _, l := range locks {
-					if l.recv != recv || !dominates(l.in, at) {
+					if !sameAddr(l.recv, recv) || !dominates(l.in, at) {
 						continue
 					}
 					released := false
 					for _, u := range unlocks {
-						if !u.deferred && u.recv == recv && dominates(l.in, u.in) && dominates(u.in, at) {
+						if !u.deferred && sameAddr(u.recv, recv) && dominates(l.in, u.in) && dominates(u.in, at) {
 							released = true
 						}
 					}
